@@ -86,6 +86,15 @@ def subharnesses(tier):
                     'apps': apps, 'event': ['set_valid_until', 0, 1],
                     'sym_valid_until': True, 'sym_expiry': True}
             subs.append(('%s-D1-A3-%s-leased' % (topo, g1.ptag(pl)), spec))
+    # the rack above a healthy server is frozen / down (the server itself is
+    # up) and an instance nobody can take is ahead in the queue
+    for st in ('frozen', 'down'):
+        for pl in [(None, 0, 1), (None, 0, 0), (None, 1, None)]:
+            apps = [{'place': j} for j in pl]
+            apps[0]['traits'] = 1
+            spec = {'topo': 'T2', 'D': 1, 'servers': [{}, {}],
+                    'apps': apps, 'event': ['bucket_state', 'rack:a', st]}
+            subs.append(('T2-D1-A3-%s-rack_%s' % (g1.ptag(pl), st), spec))
     return subs
 
 
